@@ -12,3 +12,33 @@ package modfile
 func ParseSyntax(file string, data []byte) (*FileSyntax, error) {
 	return parse(file, data)
 }
+
+// LexToken is one token of the go.mod lexer as seen by the verification
+// harness: Kind is the token kind of read.go (a punctuation rune, or the
+// negative codes _EOF … _COMMENT).
+type LexToken struct {
+	Kind        int
+	Pos, EndPos Position
+	Text        string
+}
+
+// LexTokens runs the unexported lexer over data and returns every token up
+// to and including EOF together with the end-of-line comments the lexer
+// recorded on the way. A lexer error stops the scan and ok is false.
+func LexTokens(data []byte) (toks []LexToken, comments []Comment, ok bool) {
+	in := newInput("", data)
+	defer func() {
+		if e := recover(); e != nil {
+			ok = false
+		}
+	}()
+	in.readToken()
+	for {
+		t := in.lex()
+		toks = append(toks, LexToken{Kind: int(t.kind), Pos: t.pos, EndPos: t.endPos, Text: t.text})
+		if t.kind == _EOF {
+			break
+		}
+	}
+	return toks, in.comments, true
+}
